@@ -288,3 +288,28 @@ theorem voice_run (P P₀ : Prog) (hP : SimpleProg P) (hP₀ : SimpleProg P₀) 
           simp only [List.map_cons, hvals i hi, hch i hi, hchild]
 
 end Mimium.LiveCoding
+
+namespace Mimium.LiveCoding
+open Mimium.Core Mimium.Cells Mimium.FlatTree Mimium.Publish
+
+/-- a program without globals keeps an empty global store along its run -/
+theorem prefixRun_store_nil (fuel : Nat) (P : Prog) (sr : UInt64) (inputs : Nat → List UInt64) :
+    ∀ (n : Nat) (A : Machine) (o1 : List (List UInt64)) (m : Machine), A.store = [] →
+      prefixRun fuel P sr inputs n A = some (o1, m) → m.store = []
+  | 0, A, o1, m, hA, h => by simp only [prefixRun, Option.some.injEq, Prod.mk.injEq] at h; rw [← h.2]; exact hA
+  | n + 1, A, o1, m, hA, h => by
+    simp only [prefixRun] at h
+    cases hs : Machine.step fuel P sr A (inputs A.t) with
+    | error e => simp [hs] at h
+    | ok r =>
+      obtain ⟨o, A1⟩ := r
+      simp only [hs] at h
+      cases hp : prefixRun fuel P sr inputs n A1 with
+      | none => simp [hp] at h
+      | some r2 =>
+        obtain ⟨o2, m2⟩ := r2
+        simp only [hp, Option.map_some, Option.some.injEq, Prod.mk.injEq] at h
+        rw [← h.2]
+        exact prefixRun_store_nil fuel P sr inputs n A1 o2 m2 (step_store_nil fuel P sr A _ o A1 hA hs) hp
+
+end Mimium.LiveCoding
